@@ -31,14 +31,14 @@ func (tr *trans) instr(in ssa.Instruction, st State) {
 		// address computations are resolved at their uses; nil base is checked here like Go does
 		l := tr.locOf(x.X)
 		if l.kind == locObj {
-			tr.panicCheck("nil-deref:"+tr.srcText(x.Pos())+":"+x.X.Name()+"."+fieldName(x), not(eq(l.ref, "0")), x.Pos())
+			tr.panicCheck("nil-deref:"+tr.srcText(x.Pos())+":."+fieldName(x), not(eq(l.ref, "0")), x.Pos())
 		}
 	case *ssa.IndexAddr:
 		switch u := x.X.Type().Underlying().(type) {
 		case *types.Slice:
 			s := tr.val(x.X)
 			i := tr.val(x.Index)
-			tr.panicCheck("index:"+tr.srcText(x.Pos())+":"+x.X.Name()+"["+x.Index.Name()+"]", and(app("<=", "0", i), app("<", i, "(sllen "+s+")")), x.Pos())
+			tr.panicCheck("index:"+tr.srcText(x.Pos()), and(app("<=", "0", i), app("<", i, "(sllen "+s+")")), x.Pos())
 		case *types.Pointer:
 			at := u.Elem().Underlying().(*types.Array)
 			i := tr.val(x.Index)
@@ -46,7 +46,7 @@ func (tr *trans) instr(in ssa.Instruction, st State) {
 			if l.kind == locObj {
 				tr.panicCheck("nil-deref:"+tr.srcText(x.Pos()), not(eq(l.ref, "0")), x.Pos())
 			}
-			tr.panicCheck("index:"+tr.srcText(x.Pos())+":"+x.X.Name()+"["+x.Index.Name()+"]", and(app("<=", "0", i), app("<", i, num(at.Len()))), x.Pos())
+			tr.panicCheck("index:"+tr.srcText(x.Pos()), and(app("<=", "0", i), app("<", i, num(at.Len()))), x.Pos())
 		}
 	case *ssa.Field:
 		tr.vc.sortOf(x.X.Type())
@@ -60,7 +60,7 @@ func (tr *trans) instr(in ssa.Instruction, st State) {
 		case *types.Basic: // string
 			i := tr.val(x.Index)
 			s := tr.val(x.X)
-			tr.panicCheck("index:"+tr.srcText(x.Pos())+":"+x.X.Name()+"["+x.Index.Name()+"]", and(app("<=", "0", i), app("<", i, app("slen", s))), x.Pos())
+			tr.panicCheck("index:"+tr.srcText(x.Pos()), and(app("<=", "0", i), app("<", i, app("slen", s))), x.Pos())
 			tr.setVal(x, app("sat", s, i))
 		default:
 			tr.errorf("unsupported Index on %s", typeKey(x.X.Type()))
@@ -220,7 +220,7 @@ func (tr *trans) unop(x *ssa.UnOp, st State) {
 	switch x.Op {
 	case token.MUL:
 		l := tr.locOf(x.X)
-		tr.nilCheck(l, x.Pos(), "load "+x.X.Name())
+		tr.nilCheck(l, x.Pos(), "load")
 		if l.kind == locGlobal {
 			if _, isStored := tr.storedGlobals()[l.g]; !isStored {
 				// global treated as constant
@@ -384,7 +384,7 @@ func (tr *trans) slice(x *ssa.Slice, st State) {
 		if x.Max != nil {
 			mx = tr.val(x.Max)
 		}
-		tr.panicCheck("slice:"+tr.srcText(pos)+":"+x.X.Name(), and(app("<=", "0", lo), app("<=", lo, hi), app("<=", hi, mx), app("<=", mx, "(scap "+s+")")), pos)
+		tr.panicCheck("slice:"+tr.srcText(pos), and(app("<=", "0", lo), app("<=", lo, hi), app("<=", hi, mx), app("<=", mx, "(scap "+s+")")), pos)
 		tr.setVal(x, fmt.Sprintf("(mkSlice (sarr %s) (+ (soff %s) %s) (- %s %s) (- %s %s))", s, s, lo, hi, lo, mx, lo))
 	case *types.Basic: // string
 		s := tr.val(x.X)
@@ -396,7 +396,7 @@ func (tr *trans) slice(x *ssa.Slice, st State) {
 		if x.High != nil {
 			hi = tr.val(x.High)
 		}
-		tr.panicCheck("slice:"+tr.srcText(pos)+":"+x.X.Name(), and(app("<=", "0", lo), app("<=", lo, hi), app("<=", hi, app("slen", s))), pos)
+		tr.panicCheck("slice:"+tr.srcText(pos), and(app("<=", "0", lo), app("<=", lo, hi), app("<=", hi, app("slen", s))), pos)
 		tr.setVal(x, app("ssub", s, lo, hi))
 	case *types.Pointer: // *array
 		at := u.Elem().Underlying().(*types.Array)
@@ -521,7 +521,7 @@ func (tr *trans) typeAssert(x *ssa.TypeAssert, st State) {
 		}
 		return
 	}
-	tr.panicCheck("typeassert:"+tr.srcText(x.Pos())+":"+x.X.Name()+".("+typeKey(at)+")", ok, x.Pos())
+	tr.panicCheck("typeassert:"+tr.srcText(x.Pos())+":.("+typeKey(at)+")", ok, x.Pos())
 	tr.setVal(x, res)
 	if inv := tr.typeInv(tr.vals[x], at, st, 0); inv != "true" {
 		tr.vc.assume(inv)
